@@ -6,6 +6,7 @@
 #include <algorithm>
 #include <memory>
 #include <stdexcept>
+#include <unistd.h>
 
 using namespace OP2Utility;
 
@@ -27,13 +28,14 @@ uint64_t pickSize(Rng& r, bool thorough) {
 }
 
 std::string spell(const std::string& dir, const std::string& name, uint64_t sp) {
-	if (dir.empty()) return (sp % 2) ? "./" + name : name;
-	switch (sp % 5) {
+	if (dir.empty()) return (sp % 6 == 5) ? disk::scratchRoot() + "/" + name : (sp % 2) ? "./" + name : name;
+	switch (sp % 6) {
 	case 0: return dir + "/" + name;
 	case 1: return "./" + dir + "/" + name;
 	case 2: return dir + "//" + name;
 	case 3: return dir + "/./" + name;
-	default: return dir + "/_s/../" + name;
+	case 4: return dir + "/_s/../" + name;
+	default: return disk::scratchRoot() + "/" + dir + "/" + name; // absolute
 	}
 }
 
@@ -76,14 +78,15 @@ struct VolRoundtrip : Family {
 			Line f = mkline("world", "file");
 			uint64_t sz = pickSize(r, thorough);
 			if (sz > 100000) { if (bigSeen && !thorough) sz = r.below(5000); bigSeen = true; }
-			f.set("dir", r.chance(1, 6) ? std::string("-") : dirName(r.below(ndirs))).set("name", quoteToken(nm)).set("cseed", hex64(r.next())).set("len", sz).set("sp", r.below(5));
+			f.set("dir", r.chance(1, 6) ? std::string("-") : dirName(r.below(ndirs))).set("name", quoteToken(nm)).set("cseed", hex64(r.next())).set("len", sz).set("sp", r.below(6));
+			if (r.chance(1, 10)) f.set("link", 1); // the listed path is a symbolic link to the file holding the bytes
 			p.world.push_back(f);
 		}
 		// pack order: a permutation of the files
 		for (size_t i = p.world.size(); i > 1; --i) std::swap(p.world[i - 1], p.world[r.below(i)]);
 		swarmEnv(p, r, true, true, bigSeen);
 		std::string out = r.chance(1, 3) ? "_out.vol" : r.chance(1, 2) ? "_o/Archive.VOL" : "./_packed.vol";
-		uint64_t mode = c02 ? 0 : r.below(8); // 0..5 plain, 6 duplicate names, 7 output names an input
+		uint64_t mode = c02 ? 0 : r.below(9); // 0..5 plain, 6 duplicate names, 7 output names an input, 8 an input with the output's file name elsewhere
 		if (mode == 6 && !names.empty()) {
 			// a second input whose name differs from an existing one only in letter case, in another directory
 			const std::string& o = names[r.below(names.size())];
@@ -91,6 +94,17 @@ struct VolRoundtrip : Family {
 			Line f = mkline("world", "file");
 			f.set("dir", "_dx").set("name", quoteToken(v)).set("cseed", hex64(r.next())).set("len", r.below(100)).set("sp", 0);
 			p.world.insert(p.world.begin() + static_cast<long>(r.below(p.world.size() + 1)), f);
+		}
+		if (mode == 8) {
+			// an input that merely shares the output's file name (another directory, possibly another letter case): NOT the output
+			std::string base = out.substr(out.rfind('/') == std::string::npos ? 0 : out.rfind('/') + 1);
+			bool clash = false;
+			for (auto& o : names) if (ref::nameEqualNoCase(o, base)) clash = true;
+			if (!clash) {
+				Line f = mkline("world", "file");
+				f.set("dir", "_dz").set("name", quoteToken(r.chance(1, 2) ? base : upperStr(base))).set("cseed", hex64(r.next())).set("len", r.below(300)).set("sp", r.below(6));
+				p.world.push_back(f);
+			}
 		}
 		Line create = mkline("op", "create");
 		if (mode == 7 && !names.empty()) {
@@ -140,7 +154,12 @@ struct VolRoundtrip : Family {
 				in.onDisk = dir.empty() ? in.name : dir + "/" + in.name;
 				in.path = spell(dir, in.name, l.u("sp"));
 				if (!dir.empty()) disk::mkdirs(dir + "/_s");
-				disk::put(in.onDisk, in.data);
+				if (l.u("link", 0)) {
+					std::string real = "_real" + std::to_string(ins.size());
+					disk::put(dir.empty() ? real : dir + "/" + real, in.data);
+					if (symlink(real.c_str(), in.onDisk.c_str()) != 0) throw std::runtime_error("symlink failed");
+					ctx.count("probe.input_is_symlink");
+				} else disk::put(in.onDisk, in.data);
 				ins.push_back(in);
 			}
 		}
